@@ -4,6 +4,7 @@ package main
 
 import (
 	"fmt"
+	"go/ast"
 	"go/constant"
 	"go/token"
 	"go/types"
@@ -72,6 +73,7 @@ type Exec struct {
 	warnings       []string
 	noDef          bool
 	loopHeapStored map[*ssa.Alloc]bool
+	siteNames      map[*ssa.Function]map[token.Pos]string
 	pdoms          map[*ssa.Function]*pdomInfo
 	noMerge        bool
 	merges         int
@@ -88,6 +90,62 @@ func newExec(prog *ssa.Program, pkg *ssa.Package, tpkg *packages.Package, specs 
 		loopInfo: map[*ssa.Function]*loopInfo{}, debug: os.Getenv("GOWP_DEBUG") != "",
 		usedContracts: map[string]bool{}, pdoms: map[*ssa.Function]*pdomInfo{}, noMerge: os.Getenv("GOWP_NOMERGE") != "",
 	}
+}
+
+// callSites maps the position (left parenthesis) of every call expression in fn's source to its site name
+// "<callee expression text>#<ordinal among calls with the same text>".
+func (x *Exec) callSites(fn *ssa.Function) map[token.Pos]string {
+	if x.siteNames == nil {
+		x.siteNames = map[*ssa.Function]map[token.Pos]string{}
+	}
+	if m, ok := x.siteNames[fn]; ok {
+		return m
+	}
+	m := map[token.Pos]string{}
+	x.siteNames[fn] = m
+	syn := fn.Syntax()
+	if syn == nil {
+		return m
+	}
+	type cs struct {
+		pos  token.Pos
+		text string
+	}
+	var all []cs
+	ast.Inspect(syn, func(n ast.Node) bool {
+		if c, ok := n.(*ast.CallExpr); ok {
+			all = append(all, cs{c.Lparen, types.ExprString(c.Fun)})
+		}
+		return true
+	})
+	sort.Slice(all, func(i, j int) bool { return all[i].pos < all[j].pos })
+	cnt := map[string]int{}
+	for _, c := range all {
+		m[c.pos] = fmt.Sprintf("%s#%d", c.text, cnt[c.text])
+		cnt[c.text]++
+	}
+	return m
+}
+
+// siteAnns returns the annotations for the call at pos when it belongs to the function under verification.
+func (x *Exec) siteAnns(st *State, fr *Frame, pos token.Pos) (string, []*SiteAnn) {
+	if len(st.frames) != 1 || x.curContract == nil || len(x.curContract.Sites) == 0 {
+		return "", nil
+	}
+	name, ok := x.callSites(fr.fn)[pos]
+	if !ok {
+		return "", nil
+	}
+	return name, x.curContract.Sites[name]
+}
+
+func (x *Exec) siteEnv(st *State, fr *Frame, pos token.Pos) *specEnv {
+	env := &specEnv{x: x, st: st, vars: map[string]Val{}, frame: fr, pos: pos, old: st.entry, where: "call-site annotation in " + fr.fn.Name()}
+	env.oldVars = map[string]Val{}
+	for _, p := range fr.fn.Params {
+		env.oldVars[p.Name()] = fr.regs[p]
+	}
+	return env
 }
 
 // funcKey computes the contract key of an ssa function.
@@ -173,7 +231,16 @@ func (x *Exec) loops(fn *ssa.Function) *loopInfo {
 	}
 	sort.Slice(li.heads, func(i, j int) bool { return li.heads[i].Index < li.heads[j].Index })
 	// order by source position of the loop when available
-	sort.SliceStable(li.heads, func(i, j int) bool { return blockPos(li.heads[i]) < blockPos(li.heads[j]) })
+	loopPos := func(h *ssa.BasicBlock) token.Pos {
+		best := token.Pos(math.MaxInt32)
+		for b := range li.blocks[h] {
+			if p := blockPos(b); p < best {
+				best = p
+			}
+		}
+		return best
+	}
+	sort.SliceStable(li.heads, func(i, j int) bool { return loopPos(li.heads[i]) < loopPos(li.heads[j]) })
 	for i, h := range li.heads {
 		li.ord[h] = i
 	}
@@ -520,6 +587,15 @@ func (x *Exec) step(st *State) []*State {
 		}
 		return out
 	case *ssa.Call:
+		if site, anns := x.siteAnns(st, fr, i.Call.Pos()); len(anns) > 0 {
+			env := x.siteEnv(st, fr, i.Call.Pos())
+			for _, a := range anns {
+				if a.Kind == "assert" && !x.assumedOnly(a.Cl) {
+					t := x.evalBool(env, a.Cl.Expr, a.Cl)
+					x.oblige(st, fmt.Sprintf("%s/at:%s-assert#%d", x.curFunc, site, a.Cl.Ord), "site-assert", a.Cl.Tags, t, i.Call.Pos(), "before "+site+": "+a.Cl.Src)
+				}
+			}
+		}
 		return x.execCall(st, fr, i, &i.Call, false)
 	case *ssa.Defer:
 		x.execDefer(st, fr, i)
